@@ -241,7 +241,7 @@ def c18(tier):
 
 def c01(tier):
     jobs = tree_jobs(tier)[:4]
-    conv = [(3, 2), (3, 3)] if tier == "quick" else [(3, 2), (3, 3), (2, 4), (6, 3)]
+    conv = [(3, 2), (3, 3)] if tier == "quick" else [(3, 2), (3, 3), (6, 3)]
     for c in conv:
         jobs.append(Job("h_c18::converge", c, dict(S2), budget_s=6000, validate=30))
     jobs.append(Job("h_c02::delivery", (0, 6, 0), dict(S2), budget_s=4000, validate=20))
